@@ -38,7 +38,7 @@ func (o *opt) Match(args []string, c *ParseContext) (bool, []string) {
 		arg := args[idx]
 		switch {
 		case arg == "-":
-			idx++
+			return o.theOne.ValueSetFromEnv, args
 		case arg == "--":
 			return o.theOne.ValueSetFromEnv, args
 		case strings.HasPrefix(arg, "--"):
